@@ -38,13 +38,23 @@ def bounded_ub_to_u_b_conditioned(module):
     def f(rng):
         U = np.array(random_rotation(rng))
         cond = 10 ** rng.uniform(0, 5.9)
-        d = [1.0, cond ** rng.uniform(0, 1), cond]
-        rng.shuffle(d)
-        B = np.diag(d)
-        for (i, j) in ((0, 1), (0, 2), (1, 2)):
-            B[i, j] = rng.uniform(-1, 1) * min(d[i], d[j])
-        B /= max(d) ** 0.5
-        if np.linalg.cond(B) > 1e6:
+        if rng.random() < 0.6:
+            # a generic ill-conditioned factor: singular vectors in general position (graded matrices, the other
+            # case, are factorised accurately even by squaring routes)
+            def ortho():
+                q, r = np.linalg.qr(np.array([[rng.gauss(0, 1) for _ in range(3)] for _ in range(3)]))
+                return q
+            A = ortho().dot(np.diag([1.0, cond ** rng.uniform(0, 1), cond])).dot(ortho())
+            q, r = np.linalg.qr(A)
+            B = (r.T * np.sign(np.diag(r))).T / cond ** 0.5
+        else:
+            d = [1.0, cond ** rng.uniform(0, 1), cond]
+            rng.shuffle(d)
+            B = np.diag(d)
+            for (i, j) in ((0, 1), (0, 2), (1, 2)):
+                B[i, j] = rng.uniform(-1, 1) * min(d[i], d[j])
+            B /= max(d) ** 0.5
+        if np.linalg.cond(B) > 9e5 or np.any(np.diag(B) <= 0):
             return None
         UB = U.dot(B)
         U2, B2 = mod.ub_to_u_b(UB)
